@@ -33,7 +33,7 @@ ROUTES = ["direct", "proxy"]
 
 
 def bounds(tier):
-    return "4 cert_reqs x 3 check_hostname x 7 trust sources x 3 server_hostname x 4 server certificates x 2 routes (wss) + 3 ssl_version values x reduced grid + ws controls" + (
+    return "4 cert_reqs x 3 check_hostname x 7 trust sources x 3 server_hostname x 4 server certificates x 2 routes (wss) + 3 ssl_version values and 5 unrelated option sets (ciphers, client certificate, cert_chain, ecdh_curve, handshake flags) x reduced grid + ws controls" + (
         " (quick: proxy route for a third of the grid)" if tier == "quick" else "")
 
 
@@ -148,7 +148,7 @@ def server_thread(srv, cert, proxy, out):
 SSL_VERSIONS = {"absent": None, "TLS_CLIENT": ssl.PROTOCOL_TLS_CLIENT, "TLS": ssl.PROTOCOL_TLS, "TLSv1_2": ssl.PROTOCOL_TLSv1_2}
 
 
-def run_case(scheme, cert_reqs, check_hostname, trust, server_hostname, server_cert, route, ssl_version="absent"):
+def run_case(scheme, cert_reqs, check_hostname, trust, server_hostname, server_cert, route, ssl_version="absent", extras=None):
     lib.reset_globals()
     cli, srv = socket.socketpair()
     cli.close()
@@ -183,6 +183,18 @@ def run_case(scheme, cert_reqs, check_hostname, trust, server_hostname, server_c
         sslopt["context"] = ctx
     if server_hostname != "absent":
         sslopt["server_hostname"] = server_hostname
+    if extras == "ciphers":
+        sslopt["ciphers"] = "DEFAULT"
+    elif extras == "certfile":
+        sslopt["certfile"] = os.path.join(FIX, "other.pem")
+        sslopt["keyfile"] = os.path.join(FIX, "other.key")
+    elif extras == "cert_chain":
+        sslopt["cert_chain"] = (os.path.join(FIX, "other.pem"), os.path.join(FIX, "other.key"), None)
+    elif extras == "ecdh":
+        sslopt["ecdh_curve"] = "prime256v1"
+    elif extras == "handshake-flags":
+        sslopt["do_handshake_on_connect"] = True
+        sslopt["suppress_ragged_eofs"] = False
     if ssl_version != "absent":
         import warnings
         warnings.simplefilter("ignore", DeprecationWarning)
@@ -220,8 +232,8 @@ def run_case(scheme, cert_reqs, check_hostname, trust, server_hostname, server_c
         except Exception:
             pass
     th.join(15)
-    label = "%s cert_reqs=%s check_hostname=%s trust=%s server_hostname=%s server_cert=%s route=%s ssl_version=%s" % (
-        scheme, cert_reqs if cert_reqs == "absent" else ssl.VerifyMode(cert_reqs).name, check_hostname, trust, server_hostname, server_cert, route, ssl_version)
+    label = "%s cert_reqs=%s check_hostname=%s trust=%s server_hostname=%s server_cert=%s route=%s ssl_version=%s extras=%s" % (
+        scheme, cert_reqs if cert_reqs == "absent" else ssl.VerifyMode(cert_reqs).name, check_hostname, trust, server_hostname, server_cert, route, ssl_version, extras)
     if th.is_alive():
         return ({"kind": "server-thread-stuck"}, "%s: server thread did not finish" % label)
     sig = {"kind": "tls", "trust": trust if trust.startswith("context") else "options"}
@@ -309,6 +321,11 @@ def run_task(desc):
             for sv in ("TLS_CLIENT", "TLS", "TLSv1_2"):
                 for chk, sh, sc in itertools.product(CHECK_HOST, SERVER_HOSTNAME[:2], SERVER_CERT):
                     run("wss", cr, chk, trust, sh, sc, "direct", sv)
+        # documented options that have nothing to do with authentication must not change what is verified
+        if not trust.startswith("context"):
+            for ex in ("ciphers", "certfile", "cert_chain", "ecdh", "handshake-flags"):
+                for chk, sc in itertools.product(CHECK_HOST, SERVER_CERT):
+                    run("wss", cr, chk, trust, "absent", sc, "direct", "absent", ex)
         if desc["cert_reqs"] == 0:
             res["samples"].append({"scheme": "wss", "trust": trust, "cert_reqs": str(cr), "configurations": n})
     res["execs"] = res["complete"] = res["distinct"] = n
